@@ -136,6 +136,25 @@ func c07CheckToken(w *sup.W, tok *biscuit.Biscuit, supplied []refdl.Block, id *u
 		w.Violate("C07:reserialization-differs", human, fmt.Sprintf("%x (%v)", ser2, err), fmt.Sprintf("%x", ser))
 		return false
 	}
+	// the loaded token owns its bytes: what the caller does afterwards with the buffer it passed
+	// to Unmarshal, or with a slice Serialize returned, does not reach the token
+	buf := append([]byte{}, ser...)
+	if own, err := biscuit.Unmarshal(buf); err == nil {
+		for k := range buf {
+			buf[k] ^= 0xff
+		}
+		out, _ := own.Serialize()
+		same := bytes.Equal(out, ser)
+		for k := range out {
+			out[k] ^= 0xff
+		}
+		again, _ := own.Serialize()
+		if !same || !bytes.Equal(again, ser) {
+			w.Class("token-shares-the-callers-buffer")
+			w.Violate("C07:token-shares-a-byte-buffer-with-its-caller", human, fmt.Sprintf("after the caller overwrote its buffers the token serializes to %x", again), fmt.Sprintf("%x", ser))
+			return false
+		}
+	}
 	if re.String() != tok.String() {
 		w.Class("reloaded-content-differs")
 		w.Violate("C07:reloaded-token-prints-differently", human, re.String(), tok.String())
